@@ -274,6 +274,15 @@ def build_units(tier: str) -> tuple[list[Unit], dict[str, str]]:
             units.append(Unit(f"{cname}/{tag}", make_harness(cname, cls, alts)))
     for mname in client_methods():
         units.append(Unit(f"client/{mname}", forwarding_harness(mname)))
+    # CPython cross-check of the engine on the functions of this property (trusted-base evidence)
+    import os
+    from pyvc import crosscheck
+    n_x = 300 if tier == "quick" else 5000
+    sd = int(os.environ.get("VERIF_SEED", "0") or 0)
+    for kind in ("encode-requests", "parse-requests"):
+        units.append(Unit(f"engine-crosscheck/{kind}", crosscheck.codec_unit(
+            kind, service_module, request_classes, cs.param_alternatives, random_arg, n_x, sd),
+            bounded=f"{n_x} random concrete cases (engine validation, not a property obligation)"))
     from .c02 import registry_sids
     for sid in registry_sids() + [None]:
         if sid == 0x2C:
